@@ -359,21 +359,23 @@ SX_META = {
 }
 
 
-# which cells of the shared family each property runs in the QUICK tier (the thorough tier runs the whole family)
+# which cells of the shared family each property runs in the QUICK tier (the thorough tier runs the property's families):
+# narrow band cells that are exhausted in 10-60 s each, the narrow structural cells that catch the seeded changes, a few wide ones
+_BANDS = ["S1x2[band=00]", "S1x2[band=01]", "S1x2[band=11]", "S2x2[band=00]", "S2x2[band=01]", "S2x2[band=10]", "S2x2g29[band=00]", "S2x2g29[band=01]",
+          "S2cross2[band=00]", "S2cross2[band=10]", "S7[same-deadline,band=00]", "S7[chain,band=00]"]
 QUICK_CELLS = {
-    "C01": ["S1x2[eff=1.0]", "S1x2[eff=0.5]", "S2x2[eff=1.0]", "S2x2[eff=2.0]", "S1x2[res=900]", "S1x3[bands=000]", "S2x2+1", "S3team", "S3mixed", "S4alt",
-            "S2cross[prefix]", "S3mixed[prefix]", "S7[same-deadline]", "S7[chain]", "S2x2[gap=29min]", "S2x2[onstart]"],
-    "C03": ["S1x2[eff=1.0]", "S1x2[eff=0.5]", "S1x2[eff=2.0]", "S2x2[eff=1.0]", "S2x2[res=900]", "S1x3[bands=010]", "S3team", "S3mixed", "S4alt", "S2cross",
-            "S7[same-deadline]", "S7[container]", "S5containers", "S2x2+1", "S2x2[gap=29min]", "S6[dres]"],
-    "C04": ["S2x2[eff=1.0]", "S2x2[gap=29min]", "S2x2[gap=1h]", "S2x2[gap=1d]", "S2x2[onstart]", "S5containers", "S5dated", "S2x2+milestone", "S2x2+milestone[gap=29min]",
-            "S2levels[outer-gap]", "S2levels[inner-onstart]", "S7[chain]", "S7[container]", "S7[same-ids]", "S2cross", "S10[dep]"],
-    "C06": ["S1x2[eff=1.0]", "S1x2[eff=2.0]", "S2x2[eff=1.0]", "S2x2[eff=0.5]", "S2x2[res=900]", "S2x2[gap=29min]", "S2x2+milestone", "S2x2+milestone[gap=29min]", "S3team",
-            "S3mixed", "S2cross", "S2cross[busy,bound-slot-full]", "S7[same-deadline]", "S7[chain]", "S7[container]", "S7[project-end]"],
-    "C08": ["S1x2[eff=1.0]", "S2x2[eff=1.0]", "S2x2[eff=0.5]", "S2x2[gap=29min]", "S2x2[gap=1h]", "S2x2[onstart]", "S2x2+1", "S3team", "S3mixed", "S2cross", "S2cross[busy]",
-            "S7[same-deadline]", "S7[chain]", "S7[container]", "S7[project-end]", "S7[same-ids]"],
+    "C01": _BANDS + ["S1x2[eff=1.0]", "S1x2[eff=0.5]", "S1x2[res=900]", "S2x2[eff=1.0]", "S1x3[bands=000]", "S2x2+1", "S3team", "S3mixed[prefix]", "S4alt",
+                     "S2cross[prefix]", "S7[same-deadline]", "S7[mixed]", "S2x2[onstart]"],
+    "C03": _BANDS + ["S1x2[eff=1.0]", "S1x2[eff=0.5]", "S1x2[eff=2.0]", "S2x2[res=900]", "S1x3[bands=010]", "S3team", "S3mixed", "S3mixed[prefix]", "S4alt",
+                     "S7[container]", "S5containers", "S6[dres]"],
+    "C04": _BANDS + ["S2x2[gap=1h]", "S2x2[gap=1d]", "S2x2[onstart]", "S5containers", "S5dated", "S2x2+milestone", "S2x2+milestone[gap=29min]",
+                     "S2levels[outer-gap]", "S2levels[inner-onstart]", "S7[chain]", "S7[container]", "S7[same-ids]", "S10[dep]"],
+    "C06": _BANDS + ["S1x2[eff=1.0]", "S1x2[eff=2.0]", "S2x2[eff=0.5]", "S2x2[res=900]", "S2x2+milestone", "S2x2+milestone[gap=29min]", "S3team",
+                     "S3mixed[prefix]", "S2cross[prefix]", "S2cross[busy,bound-slot-full]", "S7[same-deadline]", "S7[container]", "S7[project-end]", "S7[mixed]"],
+    "C08": _BANDS + ["S1x2[eff=1.0]", "S2x2[eff=0.5]", "S2x2[gap=1h]", "S2x2[onstart]", "S2x2+1", "S3team", "S3mixed[prefix]", "S2cross[prefix]",
+                     "S2cross[busy,bound-slot-full]", "S7[same-deadline]", "S7[chain]", "S7[container]", "S7[project-end]", "S7[same-ids]"],
     "C10": ["S5containers", "S5dated", "S10[plain]", "S10[dated]", "S10[start]", "S10[dep]", "S3team", "S7[container]", "S7[same-ids]", "S2levels[outer-gap]", "S6[dparent]", "S6[dgroup]"],
 }
-
 
 # the thorough tier of a property = its quick cells + every cell of the families relevant to it
 THOROUGH_FAMILIES = {
